@@ -221,11 +221,11 @@ static int gen_table_verifier(fb_output_t *out, fb_compound_type_t *ct)
             snt.text, snt.text, snt.text);
     fprintf(out->fp,
             "static inline int %s_verify_as_typed_root(const void *buf, size_t bufsiz)\n"
-            "{\n    return flatcc_verify_table_as_root(buf, bufsiz, %s_type_identifier, &%s_verify_table);\n}\n\n",
+            "{\n    return flatcc_verify_table_as_typed_root(buf, bufsiz, %s_type_hash, &%s_verify_table);\n}\n\n",
             snt.text, snt.text, snt.text);
     fprintf(out->fp,
             "static inline int %s_verify_as_typed_root_with_size(const void *buf, size_t bufsiz)\n"
-            "{\n    return flatcc_verify_table_as_root_with_size(buf, bufsiz, %s_type_identifier, &%s_verify_table);\n}\n\n",
+            "{\n    return flatcc_verify_table_as_typed_root_with_size(buf, bufsiz, %s_type_hash, &%s_verify_table);\n}\n\n",
             snt.text, snt.text, snt.text);
     fprintf(out->fp,
             "static inline int %s_verify_as_root_with_identifier(const void *buf, size_t bufsiz, const char *fid)\n"
